@@ -12,10 +12,16 @@ direct:  `ins h k v` `del h k` `delmin h` `delmax h` `get h k` `min h` `max h`  
          `chk h` → ok | bad          (structural invariant)
          `owned h` → owned=<n> total=<m>   (T: nodes reachable from the root carrying the tree's cow tag — layer B)
          `cons h` → ok | layers-differ      (T: layer B read back equals layer A)
+         `free h` → free=<n>                (T: length of the shared free list — layer B)
+         `parbegin` … `parend` → ok         the lines in between (ins del delmin delmax get has min max len scan) are run by
+                                            one goroutine per handle, concurrently; handles are isolated, so every line's
+                                            result is what the sequential reading of the script gives
          `scan h <name> <p|-> <p2|-> <cont>`  name ∈ asc ascge ascgt asclt ascrange desc descle desclt descgt descrange
                                               cont ∈ all none lt:K gt:K ne:K      → items handed to the callback
 wrapper: `wins k v` → ok   `wupd old k v` `wups old k v` `wdel k` → true|false   `wget k` → item | nil
-         `wscan <gte|gt|lte|lt> p <filter> n` filter ∈ all none mod3 odd lt:K gt:K → list | panic
+         `wscan <gte|gt|lte|lt> p <filter> n` filter ∈ all none mod3 odd lt:K gt:K → list | panic | fault | {list|fault}
+             (n: any int64; at most one n in (2^24, 2^42] per script — a second one is `bad-op` — so that a harness
+             process never holds two such allocations)
          `wlen` → n   `wchk` → ok | bad   `wconc lo hi` → ok   (concurrent inserts of lo..hi, val 0, with readers)
          `wrace <pos> <A> / <B>`  A, B ∈ `upd old k v` `ups old k v` `del k` `ins k v` `get k`: call A is parked inside
              its `pos`-th key comparison, B is started, A is released. Every method of the wrapper is one critical
@@ -28,24 +34,27 @@ open Nv Nv.C03
 structure St where
   wrapper : Bool
   trees : List Tree
+  par : Bool := false
+  bigUsed : Bool := false   -- a limit in (2^24, 2^42] was already used in this script (see `wscan`)
   heap : Cow.Heap := Cow.Heap.init 32
   htrees : List Cow.HTree := []
   nextCow : Nat := 1
 
 def cfg : Cfg := Nv.Gen.C03.cfg
 
-/-- strict integers: optional `-`, 1 to 9 digits -/
+/-- strict integers: optional `-`, 1 to 19 digits, within the range of Go's `int` (int64) -/
 def pInt (s : String) : Option Int :=
   let cs := s.toList
   let ds := match cs with
     | '-' :: rest => rest
     | _ => cs
-  if ds.isEmpty || ds.length > 9 || !ds.all Char.isDigit then none
+  if ds.isEmpty || ds.length > 19 || !ds.all Char.isDigit then none
   else
     let n : Nat := ds.foldl (fun a c => a * 10 + (c.toNat - '0'.toNat)) 0
-    match cs with
-    | '-' :: _ => some (-(n : Int))
-    | _ => some (n : Int)
+    let v : Int := match cs with
+      | '-' :: _ => -(n : Int)
+      | _ => (n : Int)
+    if v < -9223372036854775808 || v > 9223372036854775807 then none else some v
 
 def pNat (s : String) : Option Nat :=
   match pInt s with
@@ -88,7 +97,7 @@ def scanArgs (name : String) : Option (ScanArgs × Bool × Bool) :=
   else none
 
 def withTree (s : St) (h : String) (f : Nat → Tree → St × String) : St × String :=
-  if s.wrapper then (s, "bad-op") else
+  if s.wrapper || s.trees.isEmpty then (s, "bad-op") else
   match pNat h with
   | some i => match s.trees[i]? with
     | some t => f i t
@@ -139,8 +148,14 @@ def applyWr (t : Tree) : WrOp → Tree × String
 def showWalk : WalkOut → String
   | .items l => showItems l
   | .panic => "panic"
+  | .fault => "fault"
+  | .itemsOrFault l => "{" ++ showItems l ++ "|fault}"
 
-def step (s : St) (line : String) : St × String :=
+/-- operations a handle may run inside a `parbegin … parend` block (each handle in its own goroutine) -/
+def parOk (op : String) : Bool :=
+  ["ins", "del", "delmin", "delmax", "get", "has", "min", "max", "len", "scan"].contains op
+
+def step1 (s : St) (line : String) : St × String :=
   match words line with
   | ["new", d] =>
     match pNat d with
@@ -170,6 +185,7 @@ def step (s : St) (line : String) : St × String :=
     match s.htrees[i]? with
     | some ht => let r := ht.owned s.heap; (s, s!"owned={r.1} total={r.2}")
     | none => (s, "bad-op")
+  | ["free", h] => withTree s h fun _ _ => (s, s!"free={s.heap.free.length}")
   | ["cons", h] => withTree s h fun i t =>
     match s.htrees[i]? with
     | some ht => (s, if ht.inorder s.heap == t.inorder && ht.length == t.length then "ok" else "layers-differ")
@@ -196,10 +212,7 @@ def step (s : St) (line : String) : St × String :=
     | none => (s, "bad-op")
   | ["clear", h, b] => withTree s h fun i t =>
     if b == "0" || b == "1" then
-      -- layer B: the root is dropped; refilling the free list from the dropped nodes is not modelled (unobservable)
-      ({ setTree s i t.clear with htrees := match s.htrees[i]? with
-          | some ht => s.htrees.set i { ht with root := none, length := 0 }
-          | none => s.htrees }, "ok")
+      (runB (setTree s i t.clear) i (fun ht => Cow.clearB ht (b == "1")), "ok")
     else (s, "bad-op")
   | ["scan", h, name, p, p2, cont] => withTree s h fun _ t =>
     match scanArgs name, pOptInt p, pOptInt p2, pPred cont with
@@ -230,6 +243,10 @@ def step (s : St) (line : String) : St × String :=
   | ["wscan", name, p, f, n] => withW s fun t =>
     match pInt p, pPred f, pInt n with
     | some p, some f, some n =>
+      -- a limit the eager pre-sizing may really allocate (hundreds of GB of address space): one per script
+      let big := decide (2 ^ 24 < n) && decide (n ≤ 2 ^ 42)
+      if big && s.bigUsed then (s, "bad-op") else
+      let s := if big then { s with bigUsed := true } else s
       if name == "gte" then (s, showWalk (wAscendGte cfg t p f n))
       else if name == "gt" then (s, showWalk (wAscendGt cfg t p f n))
       else if name == "lte" then (s, showWalk (wDescendLte cfg t p f n))
@@ -263,5 +280,14 @@ def step (s : St) (line : String) : St × String :=
   | ["wlen"] => withW s fun t => (s, toString t.length)
   | ["wchk"] => withW s fun t => (s, if t.ok then "ok" else "bad")
   | _ => (s, "bad-op")
+
+def step (s : St) (line : String) : St × String :=
+  match words line with
+  | ["parbegin"] => if s.wrapper || s.trees.isEmpty || s.par then (s, "bad-op") else ({ s with par := true }, "ok")
+  | ["parend"] => if s.par then ({ s with par := false }, "ok") else (s, "bad-op")
+  | ["new", _] => step1 s line      -- the first line of a script re-initialises everything, an open block included
+  | ["neww"] => step1 s line
+  | op :: _ => if s.par && !parOk op then (s, "bad-op") else step1 s line
+  | [] => step1 s line
 
 def main : IO Unit := oracleMain step { wrapper := false, trees := [] }
